@@ -8,7 +8,11 @@ package c05
 import (
 	"fmt"
 	"strings"
+	"sync"
+	"sync/atomic"
 	"testing"
+
+	"lunar/engine/streams"
 
 	"pgregory.net/rapid"
 
@@ -317,5 +321,62 @@ func TestHostileTransactions(t *testing.T) {
 			}
 			clearJournal()
 		}()
+	})
+}
+
+// FuzzHostileTransaction: native coverage-guided fuzz target over the same fixed configuration and the same
+// oracle (every ExecuteFlow returns within the step bound, no panic). The driver runs it in the thorough tier.
+var (
+	fuzzStreamOnce sync.Once
+	fuzzStream     *streams.Stream
+	fuzzStreamErr  error
+	fuzzSeq        atomic.Int64
+)
+
+func FuzzHostileTransaction(f *testing.F) {
+	for _, b := range hostileBodies {
+		f.Add([]byte(b), "/a", "limit=1", "content-type", "application/json", "GET", 200)
+	}
+	for _, p := range []string{"/%zz", "/a%2", "/\t", "/%", "//", "/*", "/{x}", "/a b", "/\x00"} {
+		f.Add([]byte(`{"email":"bob@example.com","a":"needle"}`), p, "version=1", "x-who", "gzip", "POST", 500)
+	}
+	f.Add([]byte(`{"a":1}`), "/a", "version=%zz&limit", "content-encoding", "gzip", "", 599)
+	f.Fuzz(func(t *testing.T, body []byte, path, query, hk, hv, method string, status int) {
+		fuzzStreamOnce.Do(func() {
+			rec = engine.Capture(0)
+			dir, err := engine.NewDir(scratch)
+			if err != nil {
+				fuzzStreamErr = err
+				return
+			}
+			_ = dir.WriteFlow("hostile.yaml", hostileFlows)
+			for name, y := range hostileCompanions {
+				_ = dir.WriteFlow(name, y)
+			}
+			fuzzStream, fuzzStreamErr = dir.Load()
+		})
+		if fuzzStreamErr != nil {
+			t.Skip(fuzzStreamErr)
+		}
+		if !strings.HasPrefix(path, "/") {
+			path = "/" + path
+		}
+		h := map[string]string{"host": "h.com"}
+		if hk != "" {
+			h[strings.ToLower(hk)] = hv
+		}
+		id := fmt.Sprintf("z%d", fuzzSeq.Add(1))
+		defer func() {
+			if p := recover(); p != nil {
+				if sl, ok := p.(engine.StepLimit); ok {
+					t.Fatalf("transaction does not terminate: more than %d processor executions", sl.Limit)
+				}
+				t.Fatalf("panic while handling a transaction (path %q query %q header %q=%q method %q body %q): %v", path, query, hk, hv, method, body, p)
+			}
+		}()
+		_ = recArm(64)
+		engine.RunRequest(fuzzStream, engine.Txn{ID: id, Method: method, URL: "h.com" + path, Path: path, Query: query, Headers: h, Body: string(body)})
+		_ = recArm(64)
+		engine.RunResponse(fuzzStream, engine.Txn{ID: id, Method: method, URL: "h.com" + path, Headers: h, Body: string(body), Status: status})
 	})
 }
